@@ -46,6 +46,11 @@ def illegal_variants(name, shapes, args, rng):
         out += [(bad, {"dim": 0})] if r >= 2 else []
     if name == "stack":
         out += [(shapes, {"dim": r + 1}), (shapes, {"dim": -r - 2}), ([list(s) for s in shapes] + [[e + 1 for e in shapes[0]]], {"dim": 0})]
+        if r >= 1 and any(e != 1 for e in shapes[0]):
+            # unequal shapes that would broadcast to the first one are unequal shapes all the same: stacking never broadcasts
+            out += [([list(shapes[0]), [1] * r], {"dim": 0}), ([list(shapes[0]), [1] * r, list(shapes[0])], {"dim": -1}), ([list(shapes[0]), list(shapes[0])[1:]], {"dim": 0})]
+    if name == "concat" and r >= 2 and any(e != 1 for e in shapes[0][1:]):
+        out += [([list(shapes[0]), [shapes[0][0]] + [1] * (r - 1)], {"dim": 0})]
     if name == "unbind" and r >= 1:
         out += [(shapes, {"dim": r}), (shapes, {"dim": -r - 1})]
     if name in ("add", "mul", "sub", "div") and r >= 1 and shapes[0][-1] != 1:
